@@ -502,7 +502,8 @@ def render_cli_source(s, stripped=False, keep=None):
     body = [("    /// doc on a variant", True), ('    #[token("a")]', False), ("    A,", True),
             ("    #[cfg(test)]", True), ('    #[regex("[0-9]+")]', False), ('    #[regex("x+")]', False), ("    B,", True),
             ('    #[token("c", |_| 1u32)]', False), ("    C(#[allow(unused)] u32),", True),
-            ('    #[doc = "no logos attribute"]', True), ("    D,", True)]
+            ('    #[doc = "no logos attribute"]', True), ("    D,", True),
+            ('    #[token(r"m\nn")]', False), ('    #[token("o\np", priority = 9)]', False), ("    M,", True)]
     for text, keepit in body:
         if keepit or not stripped:
             lines.append(text)
@@ -520,8 +521,8 @@ def cli_run(tier, seed):
     strips = [r[2] for r in recs if r[0] == "STRIP"]
     files = [r[2] for r in recs if r[0] == "FILES"]
     rng = random.Random(seed + 17)
-    if tier == "quick" and len(strips) > 1500:
-        strips = rng.sample(strips, 1500)
+    if tier == "quick" and len(strips) > 1600:
+        strips = rng.sample(strips, 1600)
     cli = build_cli()
     wd = os.path.join(workdir(), "cli-%d" % os.getpid())
     shutil.rmtree(wd, ignore_errors=True)
@@ -533,10 +534,11 @@ def cli_run(tier, seed):
         s = c["src"]
         src = render_cli_source(s)
         exp = render_cli_source(s, stripped=True, keep=c["keep"])
-        with open(inp, "w") as f:
-            f.write(src)
+        # the reference is always the LF text: what rustc hands to the derive whatever the file's line endings
+        with open(inp, "w", newline="") as f:
+            f.write(src.replace("\n", "\r\n") if s.get("eol") == "crlf" else src)
         p = subprocess.run([cli, inp], capture_output=True, text=True)
-        key = "strip:%s|%s%s|%s|%s|%d" % (",".join(s["first"]), "T" if s["trailing"] else "-", "t" if s.get("sep") == "tight" else "", ",".join(s["second"]), s["extras"], s["nlogos"])
+        key = "strip:%s|%s%s|%s|%s|%d" % (",".join(s["first"]), "T" if s["trailing"] else "-", ("t" if s.get("sep") == "tight" else "") + ("r" if s.get("eol") == "crlf" else ""), ",".join(s["second"]), s["extras"], s["nlogos"])
         if p.returncode != 0:
             findings.append({"key": key, "what": "logos-cli failed (exit %d): %s" % (p.returncode, p.stderr[-300:]), "source": src})
             continue
